@@ -22,6 +22,7 @@ type Env struct {
 	pkg   *types.Package
 	inOld bool
 	hint  types.Type // expected type for untyped constants in conditional branches
+	newBase string   // allocation counter value at the start of the call: refs >= newBase are new
 }
 
 func (e *Env) with(name string, v *Value) *Env {
@@ -817,6 +818,24 @@ func (x *Exec) evalCall(env *Env, c *CCall) *Value {
 			t = b.Typ
 		}
 		return &Value{T: app("ite", x.term(cnd), x.termAs(a, t), x.termAs(b, t)), Typ: t, Sort: a.Sort}
+	case "isnew":
+		// the object / backing array / map was allocated during this call
+		a := arg(0)
+		base := env.newBase
+		if base == "" {
+			base = x.alloc0()
+		}
+		t := x.refTerm(a)
+		if _, ok := a.Typ.Underlying().(*types.Slice); ok {
+			t, _, _, _ = x.sliceParts(x.term(a))
+		}
+		return boolV(app(">=", t, base))
+	case "store":
+		a, k, v := arg(0), arg(1), arg(2)
+		return &Value{T: app("store", x.rawTerm(a), x.rawTerm(k), x.rawTerm(v)), Typ: a.Typ, Sort: a.Sort}
+	case "select":
+		a, k := arg(0), arg(1)
+		return &Value{T: app("select", x.rawTerm(a), x.rawTerm(k)), Sort: arrayElemSort(a.Sort)}
 	case "smt":
 		// raw SMT function application: smt("fname", args...) with Int result unless prefixed
 		fn := c.Args[0].(*CLit).Val
